@@ -295,6 +295,9 @@ func c13Chart(c *Ctx, gd *Module) {
 			continue
 		}
 		ev := resultStored(ret, 0)
+		if ev != nil {
+			ev = refine(ev, factsAt(ret))
+		}
 		r.Check("C13.every-report-counted", "handleChart/read errors are returned unchanged", gd.Pos(ret.Pos()), ev != nil && isErrOf(ev, read), "a failed/missing day must abort the chart (not be charted as empty); returns "+describe(ev))
 	}
 	// the error edge of the read must be a return (no 'continue' past a failed day)
@@ -377,7 +380,7 @@ func c13Chart(c *Ctx, gd *Module) {
 		}
 		if mu, ok := in.(*ssa.MapUpdate); ok {
 			kd := describe(mu.Key)
-			if strings.HasPrefix(kd, "rangekey(param:d[") && strings.Contains(kd, "][param:chartName][") {
+			if strings.HasPrefix(kd, "rangekey(rangeval(param:d)[") && strings.Contains(kd, "][param:chartName][") {
 				okIns = true
 			}
 		}
